@@ -20,7 +20,7 @@
      deleted nor registered again and — when x (exclusive) — nobody registered v again. *)
 From Coq Require Import List ZArith Bool Permutation Lia.
 From GZgen Require Import C13Consts.
-From GZ Require Import C13.Model C13.Proofs C13.ProofsB C13.ProofsC C13.ProofsD C13.ProofsE C13.ProofsF C13.GenProofs.
+From GZ Require Import C13.Model C13.Proofs C13.ProofsB C13.ProofsC C13.ProofsD C13.ProofsE C13.ProofsF C13.ProofsG C13.GenProofs.
 Import ListNotations.
 Open Scope Z_scope.
 
@@ -70,6 +70,52 @@ Theorem view_equals_etcd_registrations : forall h ds xs c,
   (cexcl c = true -> forall v, In v (c_values c) -> registered now v).
 Proof. exact views_are_etcd_state. Qed.
 Print Assumptions view_equals_etcd_registrations.
+
+(* The same for what the cluster's OWN machinery (monitor / load / watch / watchStream /
+   reload on an etcd client) can obtain, in any interleaving.  [gdl]: GLoad r (a Get answered
+   with the store after r mutations), GRestart p (setupWatch opens a stream that starts with
+   mutation p), GResp i evs (one response carrying mutations i, i+1, ...), GJoin (a further
+   listener).  [consistent h pos hi ds] asks only:
+     - a snapshot is the store at SOME revision r — not necessarily the newest one the
+       registry has seen (no monotonicity of load revisions);
+     - a response of the current stream carries exactly the next mutations;
+     - a stream (re)starts at p <= the position reached (the code restarts a closed or
+       cancelled stream at the revision of the last load: everything since is delivered again).
+   [final_pos_g] = (pos, hi): next mutation of the current stream, highest position ever
+   delivered.  Whenever pos = hi — the current stream has caught up — Values() of every
+   subscriber is / is within the registrations after hi mutations, however many stale
+   snapshots and replays happened before.  Boundary: Pinned.stale_snapshot_before_catch_up_refuted,
+   partial_replay_refuted (pos < hi), restart_forward_refuted (p > pos). *)
+Theorem view_equals_etcd_after_any_consistent_delivery : forall h ds xs c,
+  consistent h 0 0 ds ->
+  wf_run (init xs) (map ev_of_g ds) ->
+  In c (conts (run (init xs) (map ev_of_g ds))) ->
+  fst (final_pos_g 0 0 ds) = snd (final_pos_g 0 0 ds) ->
+  let now := etcd_state h (snd (final_pos_g 0 0 ds)) in
+  NoDup (c_values c) /\
+  (cexcl c = false -> forall v, In v (c_values c) <-> registered now v) /\
+  (cexcl c = true -> forall v, In v (c_values c) -> registered now v).
+Proof. exact views_consistent. Qed.
+Print Assumptions view_equals_etcd_after_any_consistent_delivery.
+
+(* ... and in between: the registry's copy differs from the store after hi mutations by
+   exactly the part of the replay that is still to come. *)
+Theorem registry_copy_while_replaying : forall h ds xs,
+  consistent h 0 0 ds ->
+  let pos := fst (final_pos_g 0 0 ds) in
+  let hi := snd (final_pos_g 0 0 ds) in
+  (pos <= hi)%nat /\
+  forall k, mget k (fold_left bapply (seg pos hi h) (rvals (run (init xs) (map ev_of_g ds)))) =
+            mget k (etcd_state h hi).
+Proof. intros h ds xs H. rewrite rvals_truth. exact (truth_consistent_lagging h ds H). Qed.
+Print Assumptions registry_copy_while_replaying.
+
+(* Check.consistent_b (evaluated on what the fake etcd logged in every "cluster" case of the
+   correspondence run) implies the hypothesis of the two theorems above. *)
+Theorem consistency_checker_is_sound : forall h ds pos hi,
+  consistent_b h pos hi ds = true -> consistent h pos hi ds.
+Proof. exact consistent_b_sound. Qed.
+Print Assumptions consistency_checker_is_sound.
 
 (* ... and every subscriber (in particular the exclusive ones) shows exactly the live
    values of the calls it received ([logs]: the i-th listener's flag and call log). *)
@@ -264,3 +310,24 @@ Qed.
 
 Example ex_subset : subset [5; 4; 3; 2; 1] 3 = [5; 4; 3] /\ subset [2; 1] 3 = [2; 1].
 Proof. vm_compute. split; reflexivity. Qed.
+
+(* etcd: put 1=10, put 2=20, delete 1, put 3=30.  The registry loads at revision 1, watches
+   1..3, its stream is closed and restarted at the revision of the load (1, 2 replayed in one
+   response: the deleted registration of key 1 is NOT resurrected in the end), a compaction
+   error makes it load again - answered by a lagging member at revision 2 (stale) -, the new
+   stream delivers 2, 3 again. *)
+Definition ex_gh : list bev := [BPut 1 10; BPut 2 20; BDel 1; BPut 3 30].
+Definition ex_gds : list gdl :=
+  [GLoad 1 [(1, 10)] [LAdd 1 10]; GRestart 1; GResp 1 [BPut 2 20]; GResp 2 [BDel 1]; GResp 3 [BPut 3 30];
+   GRestart 1; GResp 1 [BPut 2 20; BDel 1];
+   GJoin true [(2, 20); (3, 30)];
+   GLoad 2 [(1, 10); (2, 20)] [LDel 3; LAdd 1 10]; GRestart 2; GResp 2 [BDel 1; BPut 3 30]].
+Example ex_consistent_delivery :
+  consistent ex_gh 0 0 ex_gds /\ wf_run (init [false]) (map ev_of_g ex_gds) /\
+  final_pos_g 0 0 ex_gds = (4%nat, 4%nat) /\
+  map c_values (conts (run (init [false]) (map ev_of_g ex_gds))) = [[30; 20]; [30; 20]] /\
+  etcd_state ex_gh 4 = [(3, 30); (2, 20)].
+Proof.
+  split; [apply consistent_b_sound; reflexivity|]. split; [|repeat split; reflexivity].
+  vm_compute. repeat split; try apply Permutation_refl. apply perm_swap.
+Qed.
